@@ -296,6 +296,33 @@ fn gen_c06(ctx: &GenCtx, i: u64) -> Option<Run> {
                 let v = rb.verifier(spec);
                 rb.push(Op::Deliver { msg: t.msg, to: v, now_ns: Ns(at), ticks: vec![], twin: false, control: Some(Box::new(control)), key: None });
             }
+            // the value moves between the two slots: a token with footer X and no assertion has its footer
+            // segment dropped and is shown to a verifier with no footer and assertion X; a token with assertion
+            // X and no footer gets X appended as a footer segment and is shown to a verifier with footer X and
+            // no assertion
+            {
+                let f_nonempty = footer.as_deref().map_or(false, |f| !f.is_empty());
+                let a_nonempty = assertion.as_deref().map_or(false, |a| !a.is_empty());
+                let swaps: Vec<(u32, Option<String>, Option<String>)> = match (f_nonempty, a_nonempty) {
+                    (true, false) => vec![(rb.fault(t.msg, FaultKind::DropFooter, None), None, footer.clone())],
+                    (false, true) => vec![(rb.fault(t.msg, FaultKind::AddFooter { text: assertion.clone().unwrap() }, None), assertion.clone(), None)],
+                    (true, true) => vec![
+                        (rb.fault(t.msg, FaultKind::FooterReplace { text: assertion.clone().unwrap() }, None), assertion.clone(), footer.clone()),
+                        (rb.fault(t.msg, FaultKind::DropFooter, None), None, Some(format!("{}{}", footer.clone().unwrap(), assertion.clone().unwrap()))),
+                    ],
+                    _ => vec![],
+                };
+                for (m, vf, va) in swaps {
+                    for vlayer in if raw { vec![Layer::Core] } else { ALL_LAYERS.to_vec() } {
+                        let mut spec = plain_spec(&t, vlayer);
+                        spec.footer = vf.clone();
+                        spec.assertion = va.clone();
+                        spec.default_validators = vlayer == Layer::Batteries;
+                        let v = rb.verifier(spec);
+                        rb.deliver(m, v, at);
+                    }
+                }
+            }
             // re-split pairs: (footer, assertion) with the same concatenation
             let cat = format!("{}{}", footer.clone().unwrap_or_default(), assertion.clone().unwrap_or_default());
             let chars: Vec<char> = cat.chars().collect();
